@@ -28,8 +28,8 @@ func init() {
 		Controls: []string{"CtlScopeDeclareGlobal", "CtlScopeLookupOuterFirst", "CtlScopeLookupNoStop"},
 		Run:      ruleScp1})
 	Register(&Rule{ID: "R-SCP-2", Props: []string{"C15", "C13"}, Floor: 45,
-		Doc:      "pooled scopes (block: CreateChild/NewChildProcessor … CloseCurrentBlock/Close; node: CreateNode … CloseCurrentNode; creators, releasers and their wrappers are derived from the sync.Pool Get/Put sites): every release is applied to a handle created in the same function, no path carries two releases of one handle (explicit or deferred), no use of the handle or of a scope derived from it is reachable from a release; the pools are Put only by the putters and the putters are called only by the releasers",
-		Controls: []string{"CtlScopeDoubleRelease", "CtlScopeUseAfterRelease", "CtlScopeReleaseNotOwned", "CtlScopeDeferAndExplicit", "CtlScopeReleaseViaHelperTwice"},
+		Doc:      "pooled scopes (block: CreateChild/NewChildProcessor … CloseCurrentBlock/Close; node: CreateNode … CloseCurrentNode; creators, releasers and their wrappers are derived from the sync.Pool Get/Put sites): every release is applied to a handle created in the same function (the result of a creator, or a Processor / ReferenceScope literal whose scope field holds one), no path carries two releases of one handle (explicit or deferred), no use of the handle or of a scope derived from it is reachable from a release; the pools are Put only by the putters and the putters are called only by the releasers",
+		Controls: []string{"CtlScopeDoubleRelease", "CtlScopeUseAfterRelease", "CtlScopeReleaseNotOwned", "CtlScopeDeferAndExplicit", "CtlScopeReleaseViaHelperTwice", "CtlScopeLiteralReleaseNotOwned", "CtlScopeLiteralDoubleRelease"},
 		Run:      ruleScp2})
 	Register(&Rule{ID: "R-SCP-3", Props: []string{"C15"}, Floor: 2,
 		Doc:      "in every loop that runs statements on a child processor created outside the loop (While, WhileInCursor), the first use of the child scope on every path from the loop head is the call that clears its current block: declarations of one iteration are never visible in the next",
@@ -1339,6 +1339,15 @@ func (m *scopeModel) analyseHandle(create *ssa.Call, k scopeKind) *scpHandleInfo
 					}
 					continue
 				}
+				// stored into the handle-typed field of a handle object built in place
+				// (&Processor{…, ReferenceScope: v}): the object is the handle, as the result
+				// of the constructor that contains this literal would be
+				if fa, ok := x.Addr.(*ssa.FieldAddr); ok && scpIsHandleType(x.Val.Type()) {
+					if al, ok := fa.X.(*ssa.Alloc); ok && al.Parent() == h.fn && scpIsHandleType(al.Type()) {
+						push(al, cl)
+						continue
+					}
+				}
 				cands = append(cands, pending{x, v})
 			case *ssa.FieldAddr:
 				if x.X != v {
@@ -1543,10 +1552,53 @@ func scpReleaseOrigins(v ssa.Value) []ssa.Value {
 					continue
 				}
 			}
+			// a handle written out as a literal (&Processor{…, ReferenceScope: x}): it stands
+			// on the scope(s) stored into its handle-typed field(s) — what the constructor
+			// (*Processor).NewChildProcessor contains, spelled in place
+			if al, ok := o.(*ssa.Alloc); ok {
+				if vals := scpLiteralHandles(al); len(vals) > 0 {
+					for _, x := range vals {
+						walk(x, d+1)
+					}
+					continue
+				}
+			}
 			out = append(out, o)
 		}
 	}
 	walk(v, 0)
+	return out
+}
+
+// scpLiteralHandles: al is a handle object allocated in place (a composite literal
+// or new(T) of Processor / ReferenceScope); the result is every value the function
+// stores into a handle-typed field of it (in source order). Empty when al is not
+// such an object or no such field is ever set.
+func scpLiteralHandles(al *ssa.Alloc) []ssa.Value {
+	if !scpIsHandleType(al.Type()) || al.Referrers() == nil {
+		return nil
+	}
+	var out []ssa.Value
+	for _, st := range scpLiteralHandleStores(al) {
+		out = append(out, st.Val)
+	}
+	return out
+}
+
+func scpLiteralHandleStores(al *ssa.Alloc) []*ssa.Store {
+	var out []*ssa.Store
+	for _, r := range *al.Referrers() {
+		fa, ok := r.(*ssa.FieldAddr)
+		if !ok || fa.X != ssa.Value(al) || !scpIsHandleType(fa.Type().Underlying().(*types.Pointer).Elem()) {
+			continue
+		}
+		for _, rr := range *fa.Referrers() {
+			if st, ok := rr.(*ssa.Store); ok && st.Addr == ssa.Value(fa) {
+				out = append(out, st)
+			}
+		}
+	}
+	sort.SliceStable(out, func(i, j int) bool { return out[i].Pos() < out[j].Pos() })
 	return out
 }
 
@@ -1651,7 +1703,7 @@ func ruleScp2(c *Ctx) {
 			}
 		}
 	}
-	c.negControls(start, "okScopeReleasePerBranch", "okScopeDeferredClosureRelease", "okScopeRecreatedInLoop", "okScopeFieldAfterRelease")
+	c.negControls(start, "okScopeReleasePerBranch", "okScopeDeferredClosureRelease", "okScopeRecreatedInLoop", "okScopeFieldAfterRelease", "okBlockLiteralChild")
 }
 
 // scpCallers returns the call-graph edges into fn in a deterministic order
